@@ -76,6 +76,12 @@ def run_cmd(state, client, cmd, arg, fsdirs, cache_files):
                 elif cmd == 'restore':
                     r = await repo.restore(path=target)
                     obs['ret'] = ('restore', sorted(r.files))
+                elif cmd == 'lf-name':
+                    # the full name of a snapshot (possibly deleted by now) as the filter, the way a user pastes it
+                    await repo.list_files(snapshot_regex=arg)
+                elif cmd == 'restore-name':
+                    r = await repo.restore(path=target, snapshot_regex=arg)
+                    obs['ret'] = ('restore', sorted(r.files))
                 elif cmd == 'del':
                     await repo.delete_snapshots([arg], confirm=False)
                 elif cmd == 'clean':
@@ -125,6 +131,13 @@ def events(state):
         if own:
             evs.append((client, 'del', own[0]['name']))
         evs.append((client, 'clean', None))
+        # snapshots addressed by their full name: one that still exists and every one deleted since
+        live = {e['name'] for e in state.ledger}
+        seen = state.extra.get('names', [])
+        for nm in [n for n in seen if n not in live][:2] + [n for n in seen if n in live][:1]:
+            if client in ('A', 'A2', 'B'):
+                evs.append((client, 'lf-name', nm))
+                evs.append((client, 'restore-name', nm))
     return evs
 
 
@@ -155,6 +168,8 @@ def expand_inner(state, full_prefixes=False, only=None):
         vs = []
         sig0 = {'cmd': cmd, 'mode': MODE[0], 'client_kind': state.users[CLIENTS[client][0]]['kind']}
         ev = [client, cmd, arg if cmd != 'del' else 'own-first']
+        if cmd in ('lf-name', 'restore-name'):
+            ev[2] = 'live' if any(e['name'] == arg for e in state.ledger) else 'deleted'
         if not same(obs, ref_obs) or objects != ref_objects:
             vs.append((dict(sig0, what='differs-from-cache-disabled', cache_state='as-left-by-history',
                             exc=obs['exc'], ref_exc=ref_obs['exc']),
@@ -187,12 +202,32 @@ def expand_inner(state, full_prefixes=False, only=None):
         if cmd == 'snap' and obs['ret']:
             _, name, loc, chunks = obs['ret']
             new.ledger.append({'loc': loc, 'name': name, 'owner': CLIENTS[client][0], 'fsid': arg, 'seq': new.seq, 'chunks': chunks})
+            new.extra = dict(new.extra, names=list(new.extra.get('names', [])) + [name])
         if cmd == 'del' and obs['exc'] is None:
             new.ledger = [e for e in new.ledger if e['name'] != arg]
         new.hist = state.hist + [ev]
         key = common.h([H.canon(new), sorted((c, sorted(f)) for c, f in new.caches.items())])
         out.append((ev, new, key, vs, 2 + nvar))
     return out
+
+
+def stale_seed(arg):
+    """A snap F1, A snap F2, <who> <warm>, A del (first) - in private-cache mode."""
+    warm, who = arg
+    MODE[0] = 'private'
+    QUICK[0] = True
+    st = H.make_initial('enc')
+    for client, cmd, a in (('A', 'snap', 'F1'), ('A', 'snap', 'F2'), (who, warm, None), ('A', 'del', None)):
+        nxt = None
+        for ev2, new, key, vs, n in expand_inner(st, False, (client, cmd)):
+            if cmd == 'snap' and ev2[2] != a:
+                continue
+            nxt = new
+            break
+        if nxt is None:
+            return None
+        st = nxt
+    return st
 
 
 def _short(o):
@@ -375,6 +410,16 @@ def main():
             for sig, d in viol:
                 chk.violation(sig, d)
             chk.sample({'mode': mode, 'history': st.pop('sample')})
+        # stale private caches: another client warmed its cache, then the owner deleted a snapshot; every command of that
+        # client afterwards (incl. those that address the deleted snapshot by its full name) must ignore the stale entry
+        seeds = list(common.pmap(stale_seed, [(w, who) for w in ('ls', 'lf', 'restore') for who in ('B', 'A2')], ordered=True))
+        for out, nruns in common.pmap(expand, [(s_, 'private', False) for s_ in seeds if s_ is not None], ordered=False):
+            runs += nruns
+            for ev, succ, k, vs in out:
+                transitions += 1
+                for sig, d in vs:
+                    chk.violation(sig, d)
+        chk.coverage['stale_cache_seed_states'] = len([s_ for s_ in seeds if s_ is not None])
         # every prefix length of every entry, from states with several cached snapshots
         deep = [s for s in (last_frontier or []) if sum(len(v) for v in s.caches.values()) >= 2][: (2 if t == 'quick' else 24)]
         for out, nruns in common.pmap(expand, [(s, 'shared', True, e) for s in deep for e in sorted(FULL_EVENTS)], ordered=False):
